@@ -143,7 +143,7 @@ def emit_instr(manifest, with_contract=True):
     a, e = asm.anchor(r"void emitProgramBin\(std::ostream &outputFile\) \{")
     b, _, _ = asm.block_after(r"\} else if \(size > 0\) \{", "emitProgramBin: instruction arm", start=e, unique=False)
     b = rewrite(b, [
-        (r"directive->getValue\(\)", "value", 4),
+        (r"directive->getValue\(\)", "value", 1),
         (r"directive->getToken\(\)", "token", 1, 1),
         (r"outputFile\.put\(", "OUT_PUT(", 3),
         (r"hex::Instr::", "", 3),
